@@ -27,7 +27,8 @@ CONSTANTS NRs,          \* rank counts
           SampleSpace,  \* sample sequences [v, w]
           Required,     \* quantities every configuration reports
           Optional,     \* quantities only some configurations report
-          LocalQs       \* {} ; quantities NOT combined across the ranks (expected counterexample)
+          LocalQs,      \* {} ; quantities NOT combined across the ranks (expected counterexample)
+          Ordered       \* TRUE: the ranks report in rank order (exports: interleavings add nothing here)
 VARIABLES nr, smp, conf, rep
 vars == <<nr, smp, conf, rep>>
 
@@ -51,6 +52,7 @@ Init == /\ nr \in NRs
         /\ conf \in SUBSET Optional
         /\ rep = [r \in 1..nr |-> <<>>]
 Report(r) == /\ rep[r] = <<>>
+             /\ Ordered => \A p \in 1..(r - 1) : rep[p] # <<>>
              /\ rep' = [rep EXCEPT ![r] = <<[q \in Reported |-> VarOf(r, q)]>>]
              /\ UNCHANGED <<nr, smp, conf>>
 ReportStep == \E r \in Ranks : Report(r)
@@ -69,7 +71,8 @@ SameOnEveryRank ==
     \A r1 \in Ranks, r2 \in Ranks : (Done(r1) /\ Done(r2)) =>
         \A q \in DOMAIN rep[r1][1] : SameX(rep[r1][1][q], rep[r2][1][q])
 \* lemma the bindings rely on: the spread of an affine image is |slope| times the spread of the sample value
-AffineLemma == (N >= 1 /\ Defined(smp)) =>
+\* (a statement about the sample set alone: evaluated once per behaviour, in its initial state)
+AffineLemma == (N >= 1 /\ Defined(smp) /\ \A r \in Ranks : ~Done(r)) =>
     \A q \in Required \cup Optional : TwoPassVar(Image(q, smp)) = RMul(Q(QA(q) * QA(q)), TwoPassVar(smp))
 FitsInv == \A r \in Ranks : Done(r) => \A q \in DOMAIN rep[r][1] : IsNum(rep[r][1][q]) => Fits(rep[r][1][q][2])
 =============================================================================
